@@ -341,6 +341,27 @@ func c04Check(x *runCtx, base *c04Base, enc []byte, what string) {
 	}
 	allOK := impl == "hdr=ok mfg=ok cch=ok entries=ok owner=ok"
 	proj, decodable := boundProjection(enc)
+	// the same header step as a device provisioned with HMAC-SHA256 only runs it (HMAC-SHA384 is optional for a device
+	// whose key goes with SHA-256): it sees the same voucher and may accept no more than the fully provisioned one
+	if implV.decoded && base.cred.PublicKeyHash.Algorithm == protocol.Sha256Hash {
+		var ov fdo.Voucher
+		if cbor.Unmarshal(enc, &ov) == nil {
+			h256, _ := base.d.Hmacs()
+			hdr256 := step(func() error { return ov.VerifyHeader(h256, nil) })
+			if hdr256 == "panic" {
+				x.r.Violate(rep.Violation{Kind: "panic", Check: "C04.no-panic", Signature: "C04.panic:sha256-only-device:" + what, Input: input, Impl: hdr256, PropertyFails: true})
+			}
+			if hdr256 == "ok" && implV.hdr != "ok" {
+				x.r.Violate(rep.Violation{Kind: "oracle", Check: "C04.tamper-evident", Signature: "C04.header-accepted-only-without-hmac-sha384:" + what, Input: input,
+					Impl: "VerifyHeader(h256, nil)=ok; VerifyHeader(h256, h384)=" + implV.hdr + "; other steps: " + impl,
+					PropertyFails: decodable && !bytes.Equal(proj, base.proj) && strings.HasSuffix(impl, "mfg=ok cch=ok entries=ok owner=ok")})
+			}
+			if hdr256 != "ok" && implV.hdr == "ok" && ov.Hmac.Algorithm == protocol.HmacSha256Hash {
+				x.r.Violate(rep.Violation{Kind: "oracle", Check: "C04.untampered-verifies", Signature: "C04.header-rejected-without-hmac-sha384:" + what, Input: input,
+					Impl: "VerifyHeader(h256, nil)=" + hdr256, PropertyFails: what == "untampered"})
+			}
+		}
+	}
 	switch {
 	case !decodable:
 	case what == "untampered" || bytes.Equal(reencodeVoucher(enc), base.enc):
